@@ -709,7 +709,14 @@ func controllerLoopRule(c *Ctx) {
 				o := c.Ob(fn, "status-persisted-before-return", rc.Ret, "a return that can follow the sub-reconcilers and may be error-free persists status first")
 				if isStatusCall(errv) || p.mustPrecede(rc.Ret, func(in ssa.Instruction) bool {
 					ci, ok := in.(ssa.CallInstruction)
-					return ok && strings.Contains(calleeName(ci.Common()), "pdateStatus")
+					if !ok {
+						return false
+					}
+					if strings.Contains(calleeName(ci.Common()), "pdateStatus") {
+						return true
+					}
+					ws, isW := classifyWriter(Call{Instr: ci, Common: ci.Common(), Fn: ci.Parent()})
+					return isW && strings.HasPrefix(ws.Verb, "Status.")
 				}) {
 					o.OK()
 				} else if knownErrNonNil(p, errv, rc.Facts) {
